@@ -60,7 +60,7 @@ MANIFEST = dict(
 )
 
 IMPORTS = ['Coq.ZArith.ZArith', 'Coq.NArith.NArith', 'Coq.Lists.List', 'Coq.Strings.String', 'SV.Num.Mod360', 'SV.Num.AngleSites', 'SV.Num.AngleCtor', 'SV.Num.SpecStrip', 'SV.Num.C05Whole',
-           'SV.Num.Dec6', 'SV.Num.Dec6CarveProofs', 'SV.Num.VecText', 'SV.SM.FrozenOps', 'SV.SM.FrozenCopy', 'SV.SM.FrozenCopyValue', 'SV.SM.FrozenHash',
+           'SV.Num.Dec6', 'SV.Num.Dec6CarveProofs', 'SV.Num.VecText', 'SV.SM.FrozenOps', 'SV.SM.FrozenCopy', 'SV.SM.FrozenCopyValue', 'SV.SM.FrozenHash', 'SV.SM.FrozenEq',
            'SV.Gen.AngleSites_gen']
 PRE = '''Import ListNotations.
 Fixpoint bad_idx {A} (f : A -> bool) (n : N) (l : list A) : list N := match l with [] => [] | x :: r => (if f x then [] else [n]) ++ bad_idx f (n + 1)%N r end.
@@ -1962,7 +1962,7 @@ def run(ck: Ck) -> None:
                'twins, non-trivial = some register changed while a frozen register exists, distinct by full history; to_angle routes: '
                'non-trivial = a tiny non-zero operand; parse: corpus + generated strings (three formatted/literal/exotic numbers, 0-5 fields, '
                'stray brackets, 18 kinds of Unicode whitespace and look-alikes, all bracket styles incl. wrong ones), non-trivial = the model '
-               'predicts three decimal fields, distinct by text; constructor forms: 44 ways of building an object from three numbers x 4 classes x '
+               'predicts three decimal fields, distinct by text; constructor forms: 43 ways of building an object from three numbers x 4 classes x '
                'value triples from 32 boundary/out-of-range floats and 16 ints, then 17 copy-like operations, non-trivial = an angle class and a '
                'component outside [0,360) or -0.0, distinct by (class, form, values); hash: frozen values by seven routes, values around the '
                'rounding boundaries of round(x, 6), non-trivial = a non-integer component; in-place: 13 operators x 3 frozen classes x 11 kinds of '
@@ -2017,6 +2017,8 @@ def run(ck: Ck) -> None:
             'census_fresh_by_name_justified': 'fresh_names_ok fresh_by_name',
             'hash_is_a_function_of_all_slots_of_a_frozen_value': 'hash_table_ok hash_kinds',
             'no_inplace_operator_on_a_class_of_frozen_objects': 'inplace_ok inplace_rows',
+            'eq_compares_every_slot_and_accepts_identical_values': 'eq_table_ok eq_shapes',
+            'ne_is_the_negation_of_eq': 'ne_is_negation_of_eq',
             'whole_property_hypotheses_hold': 'c05_source_ok {| s_sites := angle_sites; s_creations := angle_creations; s_ctors := angle_ctors; '
                                               's_ctor_rows := angle_ctor_rows; s_events := mut_events; s_results := result_kinds; s_shapes := copy_shapes; '
                                               's_hash := hash_kinds; s_inplace := inplace_rows; s_fmt := format_float_cfg; s_parse := parse_vec_cfg; '
@@ -2032,7 +2034,7 @@ def run(ck: Ck) -> None:
         if built:
             pend.append(Pending(ck, corr_format_spec(ck, side), pool))
         info = pool.submit(ck.coq_eval, IMPORTS, ['bad_events no_carve mut_events', 'bad_results result_kinds', 'bad_creations angle_creations',
-                                                  'neg_zero_fix format_float_cfg', 'bad_shapes copy_shapes', 'bad_ctor_rows angle_ctor_rows', 'bad_hash_rows hash_kinds'], 'info', 600, 'Import ListNotations.') if built else None
+                                                  'neg_zero_fix format_float_cfg', 'bad_shapes copy_shapes', 'bad_ctor_rows angle_ctor_rows', 'bad_hash_rows hash_kinds', 'bad_eq_rows eq_shapes'], 'info', 600, 'Import ListNotations.') if built else None
         escalated = bool(ck.tie_broken)
         frames = guarded(ck, search_histories, [])
         if built:
@@ -2052,7 +2054,7 @@ def run(ck: Ck) -> None:
         v = info.result() if info is not None else None
         if v:
             ck.extra['offending_census_entries'] = {'mut_events': v[0], 'result_kinds': v[1], 'angle_creations': v[2], 'copy_shapes': v[4],
-                                                     'angle_ctor_rows (constructor, argument form)': v[5], 'hash_kinds': v[6]}
+                                                     'angle_ctor_rows (constructor, argument form)': v[5], 'hash_kinds': v[6], 'eq_shapes': v[7]}
             ck.extra['format_float_has_negative_zero_repair (carve-out of c05_format6_shape empty when true)'] = v[3]
         if finish_theorems is not None:
             finish_theorems()
@@ -2135,6 +2137,9 @@ def explain_failures(ck: Ck) -> None:
         ck.explain('instance:copy_')
         ck.explain('correspondence:results')
         ck.explain('correspondence:copy_shapes')
+    if any(k.startswith(('copy-compares-unequal', 'ctor-not-equal-to-same-value')) for k in keys):
+        ck.explain('instance:eq_compares_every_slot_and_accepts_identical_values')
+        ck.explain('instance:ne_is_the_negation_of_eq')
     if any(k.startswith(('frozen-hash-differs', 'frozen-class-unhashable', 'mutable-class-hashable')) or k.endswith('-changed-by-reading') for k in keys):
         ck.explain('instance:hash_is_a_function_of_all_slots_of_a_frozen_value')
     if any('-by-inplace-' in k or k.startswith(('frozen-', 'non-receiver-')) for k in keys):
